@@ -10,6 +10,7 @@ from core.outcome import Outcome, discard, observe
 from gen.objects import fitted_case
 from gen.samples import build, feature_lists
 from oracles.mapping import factorize, is_missing
+from oracles.views import canonical_str
 
 PID = "C11"
 RULE = (
@@ -217,9 +218,9 @@ def check_case(case) -> Outcome:
                 if len(set(fresh)) != len(fresh):
                     fresh = [f"n{i}_{x}" for i, x in enumerate(fresh)]
                 mapping = dict(zip(levels, fresh))
-                X[f] = X[f].map(lambda v: v if is_missing(v) else mapping[v]).astype(object)
+                X[f] = X[f].map(lambda v: v if is_missing(v) else mapping[v if isinstance(v, str) else canonical_str(v)]).astype(object)
                 if Xd is not None:
-                    Xd[f] = Xd[f].map(lambda v: v if is_missing(v) else mapping[v]).astype(object)
+                    Xd[f] = Xd[f].map(lambda v: v if is_missing(v) else mapping[v if isinstance(v, str) else canonical_str(v)]).astype(object)
                 rk[f] = [mapping[v] for v in levels]
                 changed = True
             if not changed:
